@@ -15,6 +15,9 @@ def fingerprint(w):
     """Hash of the implementation state reached (data file bytes for file
     storages, committed content otherwise) plus the clock."""
     h = hashlib.blake2b(digest_size=8)
+    if hasattr(w, 'fingerprint'):
+        h.update(repr(w.fingerprint()).encode())
+        return h.digest()
     if w.flavor == 'F':
         try:
             with open(w.path, 'rb') as f:
@@ -88,6 +91,7 @@ def _dfs(mod, cfg, spec, hist, depth, res, sample_depth=None):
         if hist:
             res.outcome(w.last_outcome if hasattr(w, 'last_outcome')
                         else 'step')
+        n = 0
         if not viol:
             try:
                 n, nontrivial, more = mod.node(w, hist, cfg, res)
